@@ -204,23 +204,25 @@ Proof.
   destruct (handle acc i v) as [[res|] acc'] eqn:E; [apply (Hh _ _ _ _ _ E)|apply IH].
 Qed.
 
-Lemma pending_exchange_at_most_one cfg q T w ixa fuel :
-  match fst (consume fuel cfg (start_retry q T) w tt (h_pending ixa) (fun _ => RErr EIncomplete)) with ROk l => (length l <= 1)%nat | RErr _ => True end.
+Lemma pending_exchange_at_most_one cfg q T w ixa sk fuel :
+  match fst (consume fuel cfg (start_retry q T) w tt (h_pending ixa sk) (fun _ => RErr EIncomplete)) with ROk l => (length l <= 1)%nat | RErr _ => True end.
 Proof.
   apply (consume_result (fun r => match r with ROk l => (length l <= 1)%nat | RErr _ => True end)).
   - intros acc. exact I.
-  - intros acc i v res acc' E. unfold h_pending in E. injection E as <- _.
-    destruct (i =? _); [|exact I]. destruct (negb (abort_code v =? 184)); [exact I|].
-    destruct (field_of _ v 135) as [[| | | | |[n| | | | | | |]| |]|]; cbn; try lia.
-    destruct (n =? 65535); cbn; lia.
+  - intros acc i v res acc' E. unfold h_pending in E.
+    destruct (i =? _).
+    + injection E as <- _. destruct (negb (abort_code v =? 184)); [exact I|].
+      destruct (field_of _ v 135) as [[| | | | |[n| | | | | | |]| |]|]; cbn; try lia.
+      destruct (n =? 65535); cbn; lia.
+    + destruct (existsb _ sk); [discriminate|]. injection E as <- _. exact I.
 Qed.
 
 Lemma pending_at_most_one cfg w : match fst (get_pending cfg w) with ROk l => (length l <= 1)%nat | RErr _ => True end.
 Proof.
   unfold get_pending.
-  match goal with |- context [consume LOOPFUEL cfg (start_retry ?q TIMEOUT) w tt (h_pending ?ixa) ?fin] =>
-    pose proof (pending_exchange_at_most_one cfg q TIMEOUT w ixa LOOPFUEL) as K;
-    destruct (consume LOOPFUEL cfg (start_retry q TIMEOUT) w tt (h_pending ixa) fin) as [[l|e] w1] end; cbn [fst] in K.
+  match goal with |- context [consume LOOPFUEL cfg (start_retry ?q TIMEOUT) w tt (h_pending ?ixa ?sk) ?fin] =>
+    pose proof (pending_exchange_at_most_one cfg q TIMEOUT w ixa sk LOOPFUEL) as K;
+    destruct (consume LOOPFUEL cfg (start_retry q TIMEOUT) w tt (h_pending ixa sk) fin) as [[l|e] w1] end; cbn [fst] in K.
   - exact K.
   - destruct e; exact I.
 Qed.
